@@ -292,11 +292,13 @@ class CodeGenerator(abc.ABC):
             if not remove_unused or self._condition(state.name)
         )
 
-    def _parameter_assignments(self, parameters: sympy.IndexedBase) -> str:
+    def _parameter_assignments(
+        self, parameters: sympy.IndexedBase, remove_unused: bool = True
+    ) -> str:
         return "\n".join(
             self._doprint(param.symbol, parameters[i], use_variable_prefix=True)
             for i, param in enumerate(self.ode.parameters)
-            if self._condition(param.name)
+            if not remove_unused or self._condition(param.name)
         )
 
     def _missing_variables_assignments(self):
@@ -446,7 +448,9 @@ class CodeGenerator(abc.ABC):
     ) -> str:
         rhs = self._rhs_arguments(order)
         states = self._state_assignments(rhs.states, remove_unused=False)
-        parameters = self._parameter_assignments(rhs.parameters)
+        # All assignments are printed (a requested value may be unused in this
+        # model), and a parameter can be requested itself
+        parameters = self._parameter_assignments(rhs.parameters, remove_unused=False)
         missing_variables = self._missing_variables_assignments()
 
         arguments = rhs.arguments
